@@ -41,6 +41,13 @@ def pf (P : Params) (op : String) (args : List String) : Option String :=
       match accDot P (if P.mersenne then IpaVerif.Generated.accInterval else 1) (a.zip b) with
       | some r => pure (toString r)
       | none => pure "panic"
+  | "dotarr", [a, b] => do
+      let a ← parseNatList a
+      let b ← parseNatList b
+      let iv := if P.mersenne then IpaVerif.Generated.accInterval else 1
+      match accDot P iv (a.zip b), accDot P iv (b.zip b) with
+      | some r0, some r1 => pure s!"{r0},{r1}"
+      | _, _ => pure "panic"
   | "sum", [l] => do pure (toString ((← parseNatList l).foldl (add P) 0))
   | _, _ => none
 
@@ -216,6 +223,12 @@ def pfOracle (P : Params) (op : String) (args : List String) (impl : String) : O
       let b ← parseNatList b
       let s := (a.zip b).foldl (fun acc (x, y) => acc + x * y) 0
       pure ((← impl.toNat?) == s % p)
+  | "dotarr", [a, b] => do
+      let a ← parseNatList a
+      let b ← parseNatList b
+      let s0 := (a.zip b).foldl (fun acc (x, y) => acc + x * y) 0
+      let s1 := (b.zip b).foldl (fun acc (x, y) => acc + x * y) 0
+      pure (impl == s!"{s0 % p},{s1 % p}")
   | "sum", [l] => do pure ((← impl.toNat?) == ((← parseNatList l).foldl (· + ·) 0) % p)
   | "batchinv", [l] => do
       let xs ← parseNatList l
